@@ -1,6 +1,7 @@
 /- dispatch for the UNIT engines: each reads a transcript of the real component and replays it on the model -/
 import OtterVerif.Impl.Sketch
 import OtterVerif.Impl.Wheel
+import OtterVerif.Impl.Mpsc
 
 namespace Driver.Units
 open OtterVerif
@@ -115,6 +116,75 @@ def whStep (w : Impl.Wheel.Wheel) (line : String) (t : Tally) : Except String (I
       else check w' rest s!"DeleteExpired {now}" ((t.bump "sweeps").bump "expired" e.length)
   | _ => .error "unknown line"
 
+/-! ### mpsc -/
+
+structure MqSt where
+  q : Impl.Mpsc.Q := {}
+  spec : List Nat := []          -- the bounded FIFO the queue must behave as
+  cap : Nat := 0
+  dead : Bool := false
+
+def mqStep (st : MqSt) (line : String) (t : Tally) : Except String (MqSt × Tally) :=
+  let ws := splitWs line
+  match ws with
+  | "new" :: ini :: mx :: "=>" :: rest =>
+    match Impl.Mpsc.newQ (BitVec.ofNat 32 ini.toNat!) (BitVec.ofNat 32 mx.toNat!) with
+    | .error _ => if rest == ["panic"] then .ok ({ st with dead := true }, t.bump "ctor_panics") else .error s!"NewMPSC {ini} {mx}: model rejects the capacities, implementation accepted them"
+    | .ok q =>
+      let cap := q.maxCap.toNat / 2
+      let got := s!"cap={cap} {Impl.Mpsc.dump q}"
+      if got != " ".intercalate rest then .error s!"NewMPSC {ini} {mx}: implementation {" ".intercalate rest}, model {got}"
+      else .ok ({ q := q, spec := [], cap := cap, dead := false }, t)
+  | "push" :: x :: "=>" :: ok :: sz :: rest =>
+    if st.dead then .error "operation on a queue whose constructor panicked" else
+    match Impl.Mpsc.tryPush st.q x.toNat! with
+    | .error (.panic m) => .error s!"TryPush {x}: model reaches a panic ({m})"
+    | .ok (q', acc) =>
+      -- C16 oracle: an offer is refused only when the buffer holds its maximum number of events
+      let shouldAccept := st.spec.length < st.cap
+      if (ok == "true") != shouldAccept then
+        .error s!"C16: TryPush {x} returned {ok} with {st.spec.length} of {st.cap} events buffered"
+      else
+      let got := s!"{acc} size={Impl.Mpsc.size q'} {Impl.Mpsc.dump q'}"
+      let want := s!"{ok} {sz} {" ".intercalate rest}"
+      let t := if Impl.Mpsc.bufLen q' q'.pBuf != Impl.Mpsc.bufLen st.q st.q.pBuf then t.bump "growths" else t
+      let t := if !acc then t.bump "refused_full" else t
+      if got != want then .error s!"TryPush {x}: implementation {want}, model {got}"
+      else .ok ({ st with q := q', spec := if acc then st.spec ++ [x.toNat!] else st.spec }, t.bump "pushes")
+  | "pop" :: "=>" :: v :: sz :: rest =>
+    if st.dead then .error "operation on a queue whose constructor panicked" else
+    match Impl.Mpsc.tryPop st.q with
+    | .error (.panic m) => .error s!"TryPop: model reaches a panic ({m})"
+    | .ok (q', r) =>
+      -- C16 oracle: FIFO, exactly once
+      let wantSpec := match st.spec with | [] => "nil" | x :: _ => toString x
+      if v != wantSpec then .error s!"C16: TryPop returned {v}, the oldest accepted and unconsumed event is {wantSpec}" else
+      let got := s!"{match r with | some x => toString x | none => "nil"} size={Impl.Mpsc.size q'} {Impl.Mpsc.dump q'}"
+      let want := s!"{v} {sz} {" ".intercalate rest}"
+      let t := if q'.cBuf != st.q.cBuf then t.bump "consumer_jumps" else t
+      let t := if r.isNone then t.bump "pop_empty" else t
+      if got != want then .error s!"TryPop: implementation {want}, model {got}"
+      else .ok ({ st with q := q', spec := st.spec.drop 1 }, t.bump "pops")
+  | _ => .error "unknown line"
+
+/-! ### conc-drain: quiescence oracle (the statement of Conc.Drain.no_stranded, evaluated on the real cache) -/
+
+def cdStep (_st : Unit) (line : String) (t : Tally) : Except String (Unit × Tally) :=
+  let ws := splitWs line
+  match ws with
+  | "quiescent" :: rest =>
+    let ds := natOf rest "ds"
+    let wb := natOf rest "wb"
+    let t := t.bump "quiescent_points"
+    if ds != 0 || wb != 0 then
+      .error s!"C14: all cache calls returned and the cache's goroutines finished, yet drainStatus={ds} (0 = idle) and {wb} write event(s) are still buffered with nobody scheduled"
+    else if natOf rest "atomic" != natOf rest "delivered" then
+      .error s!"C14/C06: quiescent with {natOf rest "atomic"} atomic deletion events but {natOf rest "delivered"} OnDeletion deliveries"
+    else if natOf rest "size" > natOf rest "max" then
+      .error s!"C14/C04: quiescent with {natOf rest "size"} entries above the maximum {natOf rest "max"}"
+    else .ok ((), t)
+  | _ => .error "unknown line"
+
 /-- generic script loop: `step` per line, first failure of a script is reported, rest of the script skipped -/
 partial def loop {σ : Type} (h : IO.FS.Stream) (init : σ) (step : σ → String → Tally → Except String (σ × Tally))
     (st : σ) (script : String) (lineNo : Nat) (skipping : Bool) (t : Tally) : IO Unit := do
@@ -137,6 +207,8 @@ partial def loop {σ : Type} (h : IO.FS.Stream) (init : σ) (step : σ → Strin
 def dispatch (cmd : String) (_args : List String) (h : IO.FS.Stream) : IO UInt32 := do
   match cmd with
   | "sketch" => loop h ({} : SkSt) skStep {} "" 0 false {}; return 0
+  | "concdrain" => loop h () cdStep () "" 0 false {}; return 0
+  | "mpsc" => loop h ({} : MqSt) mqStep {} "" 0 false {}; return 0
   | "wheel" => loop h ({} : Impl.Wheel.Wheel) whStep {} "" 0 false {}; return 0
   | _ =>
     IO.eprintln s!"unknown engine {cmd}"
